@@ -653,6 +653,44 @@ pub fn run(tier: Tier) -> i32 {
     // the same under the configuration sweep, at shallow depth
     let sweep: Vec<_> = build("C03", &PanicMon, crate::c08::sweep_defs(tier == Tier::Quick), true).into_iter().map(|(s, _)| s).collect();
     explore_more(&mut rep, "sweep", &sweep, tier.pick(3, 4), tier.pick(2.0, 30.0));
+    // (e) long histories: every per-port counter past its wrap (65540 emissions of each message
+    // type a port numbers itself), under the panic monitor
+    {
+        use rayon::prelude::*;
+        let find = |name: &str| systems.iter().find(|s| s.name == name).expect("harness: world");
+        let e2e = find("1p-e2e-anyhost");
+        let slave = find("1p-e2e-slave-seed");
+        let p2p = find("1p-p2p-anyhost");
+        let n = 65_540usize;
+        let rep2 = |pre: Vec<Ev>, unit: Vec<Ev>| -> Vec<Ev> {
+            let mut h = pre;
+            for _ in 0..n {
+                h.extend(unit.iter().cloned());
+            }
+            h
+        };
+        let jobs: Vec<(&str, &WorldSys<'_, PanicMon>, Vec<Ev>)> = vec![
+            ("sync", e2e, rep2(vec![Ev::T(0, Timer::Receipt)], vec![Ev::T(0, Timer::Sync), Ev::TxTs(0)])),
+            ("announce", e2e, rep2(vec![Ev::T(0, Timer::Receipt)], vec![Ev::T(0, Timer::Announce)])),
+            ("delay-req", slave, rep2(vec![], vec![Ev::T(0, Timer::Delay), Ev::TxTs(0)])),
+            ("pdelay-req", p2p, rep2(vec![], vec![Ev::T(0, Timer::Delay), Ev::TxTs(0)])),
+        ];
+        let res: Vec<Vec<Violation>> = jobs
+            .par_iter()
+            .map(|(what, sys, h)| {
+                let mut v = sys.run_all_judged(h).violations;
+                for x in &mut v {
+                    x.message = format!("{} [in a history of {n} {what} emissions]", x.message.chars().take(500).collect::<String>());
+                    x.replay = json!({"kind": "long-history", "what": what});
+                }
+                v
+            })
+            .collect();
+        for v in res {
+            rep.violations(v);
+        }
+        rep.cover("long_histories", json!({"emissions_each": n, "message_types": ["Sync", "Announce", "Delay_Req", "Pdelay_Req"]}));
+    }
     // (c) filter sequences
     let (fevals, fviol) = crate::c13::panic_sweep(tier);
     rep.violations(fviol);
@@ -679,6 +717,8 @@ pub fn replay(r: &serde_json::Value) {
         for x in v {
             println!("VIOLATION {} :: {}", x.signature, x.message);
         }
+    } else if r["kind"] == "long-history" {
+        println!("long-history case {r}: rerun ./check C03 quick (65540 timer events; the case is re-derived)");
     } else if r["kind"] == "filter" {
         crate::c13::replay(r);
     } else {
